@@ -3,6 +3,7 @@
    schedule.  What is not a theorem of this model: that the shared caches, the scratch context and the tail that
    runs after the flag is raised are unobservable under real interleavings - the controlled scheduler and the
    stress runs explore that (stated as partial in the manifest). *)
+From XV Require Publish PublishProofs.
 From XV Require Import Base Dcl DclProofs ThreadLocal ThreadLocalProofs.
 
 Theorem C18_mutex : forall B T sched t u, let s := run B T init sched in
@@ -56,3 +57,15 @@ Example C18_shared_scratch_refuted :
   let ops := [Decode 1 0%N; Decode 2 5%N; Read 1] in
   sh_run errors_of [] ops = [(1, false)] /\ spec_run errors_of [] ops = [(1, true)].
 Proof. vm_compute. split; reflexivity. Qed.
+
+(* ---- publication of lazily built shared entries (model: Publish.v) *)
+Theorem C18_atomic_publication_complete : forall (full : N -> list N) ops t,
+  forallb Publish.atomic ops = true -> Publish.Complete full t ->
+  Publish.Complete full (fold_left (Publish.step full) ops t).
+Proof. exact PublishProofs.atomic_publication_complete. Qed.
+Print Assumptions C18_atomic_publication_complete.
+
+Theorem C18_two_phase_publication_refuted : exists (full : N -> list N) ops,
+  ~ Publish.Complete full (fold_left (Publish.step full) ops []).
+Proof. exact PublishProofs.two_phase_refuted. Qed.
+Print Assumptions C18_two_phase_publication_refuted.
